@@ -182,3 +182,48 @@ func init() {
 			map[string]int64{"concurrent_rounds": 2000, "visitor_callbacks_monitored": 60000, "early_stop_visits": 40000, "op_merge": 2000, "blocked_visitor_overlaps": 1500}),
 	}
 }
+
+func init() {
+	props["C20"] = &propSpec{
+		Level:       "exploration",
+		Rule:        "part A (exhaustive=true refers to it): every sequence of AddRef/DecRef/Close on a freshly opened segment with the count positive until the last operation and at most 4 (quick) / 5 (thorough) AddRefs, i.e. length <= 9 / 11; before every operation a read sample (postings, stored fields, doc values) is compared with the model, after every operation /proc/self/maps and /proc/self/fd are inspected (unique file per sequence): mapping and exactly one descriptor present while the count is positive, none after the final release; every release must return nil. Part B (race detector): 2-16 holder goroutines (reference taken on their behalf while the owner holds its own, some nested AddRef/DecRef) read and release via DecRef or Close while the owner closes at a seeded point, GOMAXPROCS 2/4/16; afterwards the file must be unmapped and closed. In-memory segment: reads, AddRef/DecRef, Close return nil. distinct = sequences / concurrent rounds",
+		Assumptions: append([]string{"reference operations are balanced and a holder only takes a reference while it is known to be positive (as scorch does)"}, commonAssumptions...),
+		Runs: func(tier string) []runSpec {
+			return []runSpec{
+				{Workload: "C20", Flavour: "plain", Shards: 16, TimeoutS: tq(tier, 600, 3600)},
+				{Workload: "C20c", Flavour: "race", Shards: 16, TimeoutS: tq(tier, 900, 3600)},
+			}
+		},
+		Min: mins(map[string]int64{"sequences": 500, "proc_inspections": 3000, "reads_between_operations": 3000, "concurrent_release_rounds": 250},
+			map[string]int64{"sequences": 3000, "proc_inspections": 25000, "reads_between_operations": 30000, "concurrent_release_rounds": 3500}),
+	}
+}
+
+func init() {
+	props["C17"] = &propSpec{
+		Level:       "fault_enumeration",
+		Rule:        "for each input (built batches of classes small/one/empty/mid/deep/stored, and merges of 2-3 segments with drops): fault-free run -> size S; WriteTo with a failing io.Writer at every byte offset 0..S-1 in two styles (error at once / short write then error); Persist and Merge under an RLIMIT_FSIZE window (SIGXFSZ ignored; the kernel fails the write crossing byte L with EFBIG) at every L in [0,S) when S <= 8 kB, else at every flush boundary +-1 plus 200 seeded offsets, with the merge buffer set to {1,16,64,4096,1 MiB}; oracle: L < S => error returned and no file at the path; L >= S or no fault => success, footer/CRC of C04 and the re-opened content equal to the model; distinct = (input fingerprint, buffer size); non-trivial = every input (each has >= 100 fault points)",
+		Assumptions: append([]string{"a write failure is modelled as EFBIG from the kernel (path-based operations) or an error from the io.Writer (WriteTo); fsync/close failures are outside C17's antecedent", "the file-size limit is process-wide: fault workers are single-threaded and write their own logs only outside the window"}, commonAssumptions...),
+		Runs: func(tier string) []runSpec {
+			return []runSpec{{Workload: "C17", Flavour: "plain", Shards: 16, TimeoutS: tq(tier, 900, 3600)}}
+		},
+		Min: mins(map[string]int64{"faults_writeto": 10000, "faults_persist": 5000, "faults_merge": 5000, "success_runs_checked": 40},
+			map[string]int64{"faults_writeto": 100000, "faults_persist": 50000, "faults_merge": 50000, "success_runs_checked": 300}),
+	}
+}
+
+func init() {
+	props["C18"] = &propSpec{
+		Level:       "fault_enumeration",
+		Rule:        "for each seeded merge plan (1-3 inputs with doc values, synonyms, deletions; identical and different field lists): W = number of write callbacks of the uncancelled merge (the StatsReporter passed to Merge is called inside every write); the close channel is closed before the call and inside the k-th write for every k in 1..W+2, the whole sweep repeated 3 (quick) / 6 (thorough) times because sections are merged in map order; oracle per point: outcome is (closed error, no file) or (nil, complete file: footer/CRC + postings, stored, doc values, thesauri, vectors equal to model-merge), anything else is a violation; phases of the cancellation points (stored / sections / fields index / footer) are derived from byte positions. Schedule part (race detector): another goroutine closes the channel after a seeded number of yields. distinct = plan fingerprint; every plan is non-trivial (>= 40 cancellation points)",
+		Assumptions: commonAssumptions,
+		Runs: func(tier string) []runSpec {
+			return []runSpec{
+				{Workload: "C18", Flavour: "plain", Shards: 16, TimeoutS: tq(tier, 900, 3600)},
+				{Workload: "C18c", Flavour: "race", Shards: 8, TimeoutS: tq(tier, 900, 3600)},
+			}
+		},
+		Min: mins(map[string]int64{"cancellation_points": 10000, "cancel_closed": 5000, "cancel_complete": 200, "cancel_phase_stored": 500, "cancel_phase_sections": 3000, "cancel_phase_footer": 100, "schedule_rounds": 150},
+			map[string]int64{"cancellation_points": 200000, "cancel_closed": 100000, "cancel_complete": 4000, "cancel_phase_stored": 10000, "cancel_phase_sections": 60000, "cancel_phase_footer": 2000, "schedule_rounds": 1900}),
+	}
+}
